@@ -136,3 +136,72 @@ Theorem C15_same_methods_rejected : forall m,
 Proof. exact SerKeys.key_rejection_same_methods. Qed.
 Print Assumptions C15_same_methods_rejected.
 
+From SJ Require Import Base.Bytes Base.Utf8 Model.Read Model.Num Model.Value Model.Sval Model.Ser Model.ValueSer Model.KeyAst Model.SerAst
+  Model.VserAst Gen.SerTables Gen.VserTables Proofs.SerSrc.
+From Coq Require Import Lia.
+From SJ Require Import Proofs.VserSrc.
+Theorem C15_to_value_is_source :
+  forall (cf : cfg) (raw_value : bool) (fmt32 fmt64 : N -> bytes) (raw_parse : bytes -> res value) (sname : bytes) (v : sval),
+  vis_private_token VSER_SOURCE sname = false ->
+  to_value cf fmt32 fmt64 v =
+  vrun_protocol VSER_SOURCE cf raw_value fmt32 fmt64 (to_value cf fmt32 fmt64) (key_string fmt32 fmt64) raw_parse sname v.
+Proof. exact (@VserSrc.to_value_model_is_translated_source). Qed.
+Print Assumptions C15_to_value_is_source.
+
+Theorem C15_builders_are_source :
+  forall (cf : cfg) (rv : bool) (fmt32 fmt64 : N -> bytes) (rec : sval -> res value) (keyser : sval -> res bytes) (raw_parse : bytes -> res value),
+  let STEP := vstep VSER_SOURCE cf rv fmt32 fmt64 rec keyser raw_parse in
+  (forall t f e vec, is_vec_elem_method t f ->
+     STEP (elem_call t f e) (POpen (BVec vec)) = let* x := rec e in Ok (POpen (BVec (vec ++ [x])))) /\
+  (forall t vec, t = TSeq \/ t = TTuple \/ t = TTupleStruct -> STEP (PCall (MComp t Cend) no_args) (POpen (BVec vec)) = Ok (PDone (VArr vec))) /\
+  (forall e name vec,
+     STEP (elem_call TTupleVariant Cfield e) (POpen (BTupleVariant name vec)) = let* x := rec e in Ok (POpen (BTupleVariant name (vec ++ [x])))) /\
+  (forall name vec,
+     STEP (PCall (MComp TTupleVariant Cend) no_args) (POpen (BTupleVariant name vec)) = Ok (PDone (VObj (minsert cf name (VArr vec) [])))) /\
+  (forall k m nk,
+     STEP (PCall (MComp TMap Ckey) (set_arg PKey (ANode k) no_args)) (POpen (BMap m nk)) = let* s := keyser k in Ok (POpen (BMap m (Some s)))) /\
+  (forall v m s,
+     STEP (PCall (MComp TMap Cvalue) (with_value (ANode v))) (POpen (BMap m (Some s))) = let* x := rec v in Ok (POpen (BMap (minsert cf s x m) None))) /\
+  (forall v m, STEP (PCall (MComp TMap Cvalue) (with_value (ANode v))) (POpen (BMap m None)) = Panic) /\
+  (forall t m nk, t = TMap \/ t = TStruct -> STEP (PCall (MComp t Cend) no_args) (POpen (BMap m nk)) = Ok (PDone (VObj m))) /\
+  (forall k v m nk,
+     STEP (field_call TStruct (k, v)) (POpen (BMap m nk)) =
+     let* s := keyser (SStr k) in let* x := rec v in Ok (POpen (BMap (minsert cf s x m) None))) /\
+  (forall k v name m,
+     STEP (field_call TStructVariant (k, v)) (POpen (BStructVariant name m)) = let* x := rec v in Ok (POpen (BStructVariant name (minsert cf k x m)))) /\
+  (forall name m,
+     STEP (PCall (MComp TStructVariant Cend) no_args) (POpen (BStructVariant name m)) = Ok (PDone (VObj (minsert cf name (VObj m) [])))).
+Proof. exact (@VserSrc.builder_methods_are_translated_source). Qed.
+Print Assumptions C15_builders_are_source.
+
+Theorem C15_serializers_define_the_same_methods :
+  map fst SER_METHODS = map fst VSER_METHODS /\
+  map fst SER_NUMBER_EMITTER = map fst VSER_NUMBER_EMITTER /\
+  map fst SER_RAW_EMITTER = map fst VSER_RAW_EMITTER /\
+  SER_NUMBER_TOKEN = VSER_NUMBER_TOKEN /\ SER_RAW_TOKEN = VSER_RAW_TOKEN.
+Proof. exact (@VserSrc.serializers_define_the_same_methods). Qed.
+Print Assumptions C15_serializers_define_the_same_methods.
+
+Theorem C15_serializers_accept_the_same_methods :
+  forall m, lookup_meth SER_METHODS m = None <-> vlookup_meth VSER_METHODS m = None.
+Proof. exact (@VserSrc.serializers_accept_the_same_methods). Qed.
+Print Assumptions C15_serializers_accept_the_same_methods.
+
+Theorem C15_len_hints_side_by_side :
+  (forall cf rv fmt32 fmt64 rec keyser raw_parse (h h' : option nat) (n n' : nat) (name : bytes),
+     let STEP := vstep VSER_SOURCE cf rv fmt32 fmt64 rec keyser raw_parse in
+     STEP (PCall (MSer m_seq) (with_len (AOptUsize h) no_args)) PStart = STEP (PCall (MSer m_seq) (with_len (AOptUsize h') no_args)) PStart /\
+     STEP (PCall (MSer m_map) (with_len (AOptUsize h) no_args)) PStart = STEP (PCall (MSer m_map) (with_len (AOptUsize h') no_args)) PStart /\
+     STEP (PCall (MSer m_tuple) (with_len (AUsize n) no_args)) PStart = STEP (PCall (MSer m_tuple) (with_len (AUsize n') no_args)) PStart /\
+     STEP (PCall (MSer m_tuple_variant) (with_variant name (with_len (AUsize n) no_args))) PStart =
+     STEP (PCall (MSer m_tuple_variant) (with_variant name (with_len (AUsize n') no_args))) PStart /\
+     STEP (PCall (MSer m_struct_variant) (with_variant name (with_len (AUsize n) no_args))) PStart =
+     STEP (PCall (MSer m_struct_variant) (with_variant name (with_len (AUsize n') no_args))) PStart) /\
+  (forall ap rv fmt32 fmt64 F rec keyser (h h' : option nat) st,
+     let RUN := run SER_SOURCE ap rv fmt32 fmt64 F rec keyser SER_FUEL in
+     is_some0 h = is_some0 h' ->
+     RUN (MSer m_seq) (with_len (AOptUsize h) no_args) (st, None) = RUN (MSer m_seq) (with_len (AOptUsize h') no_args) (st, None) /\
+     RUN (MSer m_map) (with_len (AOptUsize h) no_args) (st, None) = RUN (MSer m_map) (with_len (AOptUsize h') no_args) (st, None)).
+Proof. exact (@VserSrc.len_hints_side_by_side). Qed.
+Print Assumptions C15_len_hints_side_by_side.
+
